@@ -559,6 +559,49 @@ func truncationFamily(first int) {
 // fatal error of the worker process (reported as fatal:...:stack-overflow).
 func deepInputs() {
 	debug.SetMaxStack(16 << 20)
+	// growth first: the three kinds of input at a few thousand elements, with
+	// the allocation bound of the property. A reader whose cost grows with the
+	// square of the input is reported here, in seconds, and the inputs of
+	// hundreds of thousands of elements (hours, then) are not tried.
+	{
+		mk := map[string]func(n int) []byte{
+			"unknown-chunks": func(n int) []byte {
+				b := hdr(1, 1, 96)
+				for i := 0; i < n; i++ {
+					b = append(b, refsmf.Chunk("XXXX", nil)...)
+				}
+				return append(b, refsmf.Chunk("MTrk", []byte{0x00, 0xFF, 0x2F, 0x00})...)
+			},
+			"events": func(n int) []byte {
+				var body []byte
+				for i := 0; i < n; i++ {
+					body = append(body, 0x00, 0x90, 0x3C, 0x40, 0x00, 0xFF, 0x01, 0x00)
+				}
+				body = append(body, 0x00, 0xFF, 0x2F, 0x00)
+				return append(hdr(0, 1, 96), refsmf.Chunk("MTrk", body)...)
+			},
+			"tracks": func(n int) []byte {
+				b := hdr(1, uint16(n), 96)
+				for i := 0; i < n; i++ {
+					b = append(b, refsmf.Chunk("MTrk", []byte{0x00, 0xFF, 0x2F, 0x00})...)
+				}
+				return b
+			},
+		}
+		for _, kind := range []string{"unknown-chunks", "events", "tracks"} {
+			for _, n := range []int{1000, 4000, 8000} {
+				data := mk[kind](n)
+				o := read(data)
+				ctx.Eval()
+				if o.alloc > allocBound(len(data)) {
+					if ex := exactAlloc(data); ex > allocBound(len(data)) {
+						report2("alloc:growth:"+kind, fmt.Sprintf("%d %s (%d bytes of input): ReadFrom allocated %d bytes (the bound of 64 KiB + 256 per input byte is %d)", n, kind, len(data), ex, allocBound(len(data))))
+						return
+					}
+				}
+			}
+		}
+	}
 	const n = 400000
 	alien := refsmf.Chunk("XXXX", nil)
 	var many []byte
@@ -603,6 +646,9 @@ func deepInputs() {
 // under headers that declare none, fewer or exactly that many.
 func amplification() {
 	judge := func(name string, data []byte) {
+		if ctx.ViolationCount() > 0 {
+			return // the inputs grow: what a smaller one has shown, a larger one shows at greater cost
+		}
 		ctx.Eval()
 		ctx.Add("amplification_inputs", 1)
 		o := read(data)
@@ -963,6 +1009,10 @@ func replay() {
 	if m["kind"] == "deep" || m["kind"] == "job" {
 		if strings.Contains(fmt.Sprint(m["what"]), "long payload") {
 			poisonPairs()
+			ctx.Finish("replay")
+		}
+		if strings.Contains(fmt.Sprint(m["signature"]), "alloc:growth") {
+			deepInputs()
 			ctx.Finish("replay")
 		}
 		deepInputs()
